@@ -916,6 +916,17 @@ package adaptation
 //@   loop 1 invariant forall i int :: 0 <= i && i <= idx ==> callarg("relay.StateChange", old(ncalls("relay.StateChange")) + i, 0) == r.plugins[i]
 //@                      && callarg("relay.StateChange", old(ncalls("relay.StateChange")) + i, 2) == evt && callret("relay.StateChange", old(ncalls("relay.StateChange")) + i, 0) == nil
 
+//@ func Adaptation.sortPlugins
+//@   props C06 C18
+//@   requires r != nil && held(r.Mutex) && wfPlugins(r)
+//@   modifies r.plugins, elems(r.plugins), alllocks("adaptation.plugin:Mutex")
+//@   ensures [sorted] forall i int, j int :: 0 <= i && i < j && j < len(r.plugins) ==> r.plugins[i].idx <= r.plugins[j].idx
+//@   ensures [pruned] forall i int :: 0 <= i && i < len(r.plugins) ==> !r.plugins[i].closed
+//@   ensures [wf]     wfPlugins(r) && held(r.Mutex) && epoch(r.Mutex) == old(epoch(r.Mutex))
+//@   loop 1 invariant 0 <= idx + 1 && idx + 1 <= len(r.plugins) && held(r.Mutex) && epoch(r.Mutex) == old(epoch(r.Mutex))
+//@   loop 1 invariant forall i int :: 0 <= i && i < len(r.plugins) ==> wfPlugin(r.plugins[i]) && !r.plugins[i].closed
+//@   loop 1 invariant forall i int, j int :: 0 <= i && i < j && j < len(r.plugins) ==> r.plugins[i].idx <= r.plugins[j].idx
+
 // ---- lifecycle event wrappers: set the event kind, then dispatch (generated by gen_dispatch.py) ----
 //@ func Adaptation.RunPodSandbox
 //@   props C06
